@@ -42,6 +42,10 @@ func main() {
 	}
 }
 
+// bytes produced by the first run of each program (any variant): the Go-only determinism oracle of
+// C08 flags a later run of the same program that produces different bytes.
+var firstBytes = map[string]string{}
+
 const dirtyProgram = "msg;f@0 3 str 616263;fmsg@0 9;e@1 bool true;f@0 4 i32 5"
 
 func step(line string) string {
@@ -135,6 +139,13 @@ func step(line string) string {
 		out += " | " + hx.Hex(b) + " | " + ps + " | " + w
 		if validArgs && (err != nil || n != len(b)) {
 			flags = append(flags, "GARBAGE")
+		}
+		if prev, ok := firstBytes[prog]; ok {
+			if prev != hx.Hex(b) {
+				flags = append(flags, "NONDET")
+			}
+		} else if len(firstBytes) < 200000 {
+			firstBytes[prog] = hx.Hex(b)
 		}
 		if haveExpect && w != expect {
 			flags = append(flags, "ROUNDTRIP")
